@@ -11,6 +11,7 @@ import UtapModel.Model.PrintModel
 import UtapModel.Model.StrLit
 import UtapModel.Model.Query
 import UtapModel.Model.QuerySmc
+import UtapModel.Model.QuerySmc2
 open UtapModel UtapModel.Pratt UtapModel.ExprTable UtapModel.ExprGrammar UtapModel.PrintModel
 
 def tokOfName (n : String) : Nat := tokId n
@@ -178,7 +179,15 @@ def stepLine (line : String) : List String :=
       | none =>
         -- the statistical forms (Model/QuerySmc.lean)
         match UtapModel.QuerySmc.parseS ts with
-        | none => ["REJECT parse"]
+        | none =>
+          -- hypothesis tests, comparisons, filtered simulations (Model/QuerySmc2.lean)
+          match UtapModel.QuerySmc.parseX ts with
+          | none => ["REJECT parse"]
+          | some q =>
+            let toks := UtapModel.QuerySmc.xprint q
+            let lexeq := match lexQuery real with | some ts' => decide (ts' = toks) | none => false
+            let re := decide (UtapModel.QuerySmc.parseX toks = some q)
+            ["\t".intercalate [(UtapModel.QuerySmc.xToK q).str, toString q.wf, UtapModel.Query.toksTextQ toks, toString lexeq, toString re]]
         | some q =>
           let toks := UtapModel.QuerySmc.sprint q
           let lexeq := match lexQuery real with | some ts' => decide (ts' = toks) | none => false
